@@ -12,6 +12,7 @@ generation of its deme (property C11); feeding it anything else is a translation
 """
 import ast
 
+from .lazy import normalise
 from .core import Unsupported, find_def
 
 OUTPUTS = ["GenDriver.v"]
@@ -239,6 +240,8 @@ class MTr:
         a, b = self._expr(l, env, pre), self._expr(r, env, pre)
         if isinstance(op, ast.In) and a.ty == "deme" and b.ty == "cmap":
             return V(f"(in_seeds {b.code} {a.code})", "bool")
+        if isinstance(op, ast.NotIn) and a.ty == "deme" and b.ty == "cmap":
+            return V(f"(negb (in_seeds {b.code} {a.code}))", "bool")
         if a.ty == b.ty == "nat":
             tab = {ast.Lt: "Nat.ltb {0} {1}", ast.LtE: "Nat.leb {0} {1}", ast.Gt: "Nat.ltb {1} {0}", ast.GtE: "Nat.leb {1} {0}",
                    ast.Eq: "Nat.eqb {0} {1}", ast.NotEq: "negb (Nat.eqb {0} {1})"}
@@ -490,6 +493,11 @@ class MTr:
                 if v.ty == "opaque":
                     env[t.id] = v
                     return " ".join(pre) + " " + go(env)
+                if not pre and v.ty in ("bool", "nat") and not re.search(r"\b(s\d+|v_\w+|it\d+|n\d+|b\d+|ch\d+|x\d+)\b", v.code):
+                    # a value of the configuration alone (no state, no local): used where it is mentioned, so hoisting it out of a loop
+                    # or naming it does not change the translated program
+                    env[t.id] = V(v.code, v.ty)
+                    return go(env)
                 nm = "v_" + t.id
                 env[t.id] = V(nm, v.ty)
                 return " ".join(pre) + f" let {nm} := {v.code} in\n  " + go(env)
@@ -505,6 +513,11 @@ class MTr:
                 pre, v = self.expr(t.value, env)
                 if v.ty == "deme":
                     return " ".join(pre) + f" p_set_hibernating {v.code} {'true' if s.value.value else 'false'} ;;;\n  " + go(env)
+            if self.ctx == "tree" and isinstance(t, ast.Attribute) and t.attr == "_hibernating":
+                pre, v = self.expr(t.value, env)
+                pre2, b = self.expr(s.value, env)
+                if v.ty == "deme" and b.ty == "bool":
+                    return " ".join(pre + pre2) + f" p_set_hibernating {v.code} {b.code} ;;;\n  " + go(env)
             self.bad(s, "assignment target")
         if isinstance(s, ast.AugAssign) and isinstance(s.op, ast.Add):
             env = dict(env)
@@ -553,6 +566,20 @@ class MTr:
                             for nm in ([m.name] if isinstance(m, ast.FunctionDef) else [t.id for t in m.targets if isinstance(t, ast.Name)]):
                                 env[nm] = opaque()
                 return go(env)
+            # `if <not modelled>: <not modelled>; return` at the top level of a method whose remaining statements are not modelled either:
+            # whichever way the test goes, nothing the model contains happens before the method ends
+            if self.opaque_ok(s.test, env) and not s.orelse and isinstance(s.body[-1], ast.Return) and s.body[-1].value is None \
+                    and self.only_opaque(s.body[:-1], env) and k is getattr(self, "top_k", None):
+                env2, ok = dict(env), True
+                for n in rest:
+                    if not self.only_opaque([n], env2):
+                        ok = False
+                        break
+                    if isinstance(n, ast.Assign):
+                        for t_ in n.targets:
+                            env2[t_.id] = opaque()
+                if ok:
+                    return k(env2)
             env = dict(env)
             pre, t = self.expr(s.test, env)
             if t.ty != "bool":
@@ -683,7 +710,7 @@ class MTr:
 
 
 def method(mod, cls, name, src, ctx, params, fname):
-    fn = find_def(mod, name, cls)
+    fn = normalise(find_def(mod, name, cls), dict_views=False, sums=False)
     argn = [a.arg for a in fn.args.args]
     if argn[0] != "self":
         raise Unsupported(f"{src}:{fn.lineno}: {cls}.{name} is not a method")
@@ -693,37 +720,66 @@ def method(mod, cls, name, src, ctx, params, fname):
         env[a] = v
     if len(argn) - 1 != len(params):
         raise Unsupported(f"{src}:{fn.lineno}: {cls}.{name} signature changed: {argn}")
-    body = tr.block(fn.body, env, lambda e2: "ret false", lambda e2: "ret true")
+    tr.top_k = lambda e2: "ret false"  # noqa: E731
+    body = tr.block(fn.body, env, tr.top_k, lambda e2: "ret true")
     return "".join(a + "\n" for a in tr.aux), body
 
 
+def returned_value(mod, cls, name, src):
+    """the expression a property / method returns, after shape normalisation, with its local temporaries inlined"""
+    from .lazy import Inliner
+    fn = normalise(find_def(mod, name, cls))
+    body = [s_ for s_ in fn.body if not (isinstance(s_, ast.Expr) and isinstance(s_.value, ast.Constant))]
+    if not body or not isinstance(body[-1], ast.Return) or body[-1].value is None or any(isinstance(n, ast.Return) for s_ in body[:-1] for n in ast.walk(s_)) \
+            or not all(isinstance(s_, (ast.Assign, ast.AnnAssign)) for s_ in body[:-1]):
+        raise Unsupported(f"{src}:{fn.lineno}: {name} is not assignments to temporaries followed by one return")
+    return fn, Inliner(fn, src).inline(body[-1].value, body[-1])
+
+
 def prop_listcomp(mod, cls, name, src):
-    """DemeTree.active_demes / active_non_leaves: [(level_no, deme) for level_no in range(N) for deme in self.levels[level_no] if deme.is_active]"""
-    fn = find_def(mod, name, cls)
-    if len(fn.body) != 1 or not isinstance(fn.body[0], ast.Return) or not isinstance(fn.body[0].value, ast.ListComp):
+    """DemeTree.all_demes / active_demes / active_non_leaves:
+       [(level_no, deme) for level_no in range(N) for deme in self.levels[level_no] if deme.is_active]   or
+       [(level_no, deme) for level_no, level in enumerate(self.levels or self.levels[:-1]) for deme in level if deme.is_active]
+       (or the same written as a loop nest appending to a list)"""
+    fn, lc = returned_value(mod, cls, name, src)
+    if not isinstance(lc, ast.ListComp):
         raise Unsupported(f"{src}:{fn.lineno}: {name} is not a single list comprehension")
-    lc = fn.body[0].value
     if len(lc.generators) != 2 or not isinstance(lc.elt, ast.Tuple) or len(lc.elt.elts) != 2:
         raise Unsupported(f"{src}:{fn.lineno}: {name}: comprehension shape")
     g1, g2 = lc.generators
     lv, dm = lc.elt.elts
-    if not (isinstance(lv, ast.Name) and isinstance(dm, ast.Name) and isinstance(g1.target, ast.Name) and isinstance(g2.target, ast.Name)
-            and lv.id == g1.target.id and dm.id == g2.target.id and not g1.ifs):
+    if not (isinstance(lv, ast.Name) and isinstance(dm, ast.Name) and isinstance(g2.target, ast.Name) and dm.id == g2.target.id and not g1.ifs):
         raise Unsupported(f"{src}:{fn.lineno}: {name}: comprehension variables")
-    # outer range
-    r = g1.iter
-    if not (isinstance(r, ast.Call) and dotted(r.func) == "range" and len(r.args) == 1):
-        raise Unsupported(f"{src}:{fn.lineno}: {name}: outer iterable")
-    a = r.args[0]
-    if dotted(a) == "self.height":
-        n = "(height c)"
-    elif isinstance(a, ast.BinOp) and isinstance(a.op, ast.Sub) and dotted(a.left) == "self.height" and isinstance(a.right, ast.Constant) and a.right.value == 1:
-        n = "(height c - 1)"
+    r, it2 = g1.iter, g2.iter
+    if isinstance(g1.target, ast.Name) and g1.target.id == lv.id:
+        # outer range
+        if not (isinstance(r, ast.Call) and dotted(r.func) == "range" and len(r.args) == 1):
+            raise Unsupported(f"{src}:{fn.lineno}: {name}: outer iterable")
+        a = r.args[0]
+        if dotted(a) == "self.height" or ast.unparse(a) in ("len(self.levels)", "len(self._levels)"):
+            n = "(height c)"
+        elif isinstance(a, ast.BinOp) and isinstance(a.op, ast.Sub) and (dotted(a.left) == "self.height" or ast.unparse(a.left) in ("len(self.levels)", "len(self._levels)")) \
+                and isinstance(a.right, ast.Constant) and a.right.value == 1:
+            n = "(height c - 1)"
+        else:
+            raise Unsupported(f"{src}:{fn.lineno}: {name}: range bound {ast.unparse(a)}")
+        if not (isinstance(it2, ast.Subscript) and dotted(it2.value) in ("self.levels", "self._levels") and isinstance(it2.slice, ast.Name) and it2.slice.id == lv.id):
+            raise Unsupported(f"{src}:{fn.lineno}: {name}: inner iterable")
+    elif isinstance(g1.target, ast.Tuple) and len(g1.target.elts) == 2 and all(isinstance(x, ast.Name) for x in g1.target.elts) and g1.target.elts[0].id == lv.id:
+        # enumerate(self.levels) / enumerate(self.levels[:-1])
+        if not (isinstance(r, ast.Call) and dotted(r.func) == "enumerate" and len(r.args) == 1 and not r.keywords):
+            raise Unsupported(f"{src}:{fn.lineno}: {name}: outer iterable")
+        what = ast.unparse(r.args[0])
+        if what in ("self.levels", "self._levels"):
+            n = "(height c)"
+        elif what in ("self.levels[:-1]", "self._levels[:-1]"):
+            n = "(height c - 1)"
+        else:
+            raise Unsupported(f"{src}:{fn.lineno}: {name}: enumerate of {what}")
+        if not (isinstance(it2, ast.Name) and it2.id == g1.target.elts[1].id and it2.id not in (lv.id, dm.id)):
+            raise Unsupported(f"{src}:{fn.lineno}: {name}: inner iterable")
     else:
-        raise Unsupported(f"{src}:{fn.lineno}: {name}: range bound {ast.unparse(a)}")
-    it2 = g2.iter
-    if not (isinstance(it2, ast.Subscript) and dotted(it2.value) in ("self.levels", "self._levels") and isinstance(it2.slice, ast.Name) and it2.slice.id == lv.id):
-        raise Unsupported(f"{src}:{fn.lineno}: {name}: inner iterable")
+        raise Unsupported(f"{src}:{fn.lineno}: {name}: comprehension variables")
     conds = []
     for c in g2.ifs:
         if dotted(c) in (f"{dm.id}.is_active", f"{dm.id}._active"):
